@@ -87,3 +87,40 @@ Theorem median_is_percentile_50 :
   forall (f : stairsQ), median_of f = match ecdf_of f with Some ec => Some (xtile_sample (percentiles_of ec) (q_of_Z 50)) | None => None end.
 Proof. reflexivity. Qed.
 Print Assumptions median_is_percentile_50.
+
+(* ---- the other normalisations of hist, and describe (Proofs/DescribeFacts.v) *)
+Require Import SC.Model.Slicing SC.Proofs.DescribeFacts.
+Import ListNotations.
+
+(* 'frequency' is the bin's sum divided by its width; 'density' the sum divided by the total area sum_i sum_i * width_i *)
+Theorem hist_frequency_is_sum_over_width :
+  forall (ec : stairsQ) (total : Qc) (bins : list (Qc * Qc)) (cl : side),
+    hist ec total bins cl HSum = map (bin_sum ec total cl) bins /\
+    hist ec total bins cl HFrequency = map (fun b => vdiv (bin_sum ec total cl b) (Some (snd b - fst b))) bins.
+Proof. intros. split; [apply hist_sum_bins|apply hist_frequency]. Qed.
+Print Assumptions hist_frequency_is_sum_over_width.
+
+Theorem hist_density_is_sum_over_area :
+  forall (ec : stairsQ) (total : Qc) (bins : list (Qc * Qc)) (cl : side),
+    hist ec total bins cl HDensity = map (fun b => vdiv (bin_sum ec total cl b) (hist_area ec total cl bins)) bins.
+Proof. exact hist_density. Qed.
+Print Assumptions hist_density_is_sum_over_area.
+
+(* ... so densities x_i / d with d = sum_i x_i w_i <> 0 integrate to one over the bins *)
+Theorem densities_integrate_to_one :
+  forall (xs ws : list Qc) (d : Qc),
+    length xs = length ws -> d = qsum (map (fun xw => fst xw * snd xw) (combine xs ws)) -> d <> 0 ->
+    qsum (map (fun xw => fst xw / d * snd xw) (combine xs ws)) = 1.
+Proof. exact density_integrates_to_one. Qed.
+Print Assumptions densities_integrate_to_one.
+
+(* describe(where, percentiles): the statistics of the function restricted to the window, in the order the code reports them *)
+Theorem describe_is_the_statistics_of_the_restriction :
+  forall (f : stairsQ) lo hi (ps : list Qc) (l : list V),
+    describe f lo hi ps = Ok l ->
+    exists c ec pcc,
+      clip f lo hi = Ok c /\ ecdf_of c = Some ec /\ clip (percentiles_of ec) (Some 0) (Some (q_of_Z 100)) = Ok pcc /\
+      l = [Some (q_of_Z (Z.of_nat (number_of_steps pcc) - 1)); snd (integral_and_mean c); var_of ec (snd (integral_and_mean c)); whole_min c]
+          ++ map (xtile_sample (percentiles_of ec)) ps ++ [whole_max c].
+Proof. exact describe_reports_the_statistics_of_the_restriction. Qed.
+Print Assumptions describe_is_the_statistics_of_the_restriction.
